@@ -74,6 +74,14 @@ func (f *FSMSnapshot) Persist(sink raft.SnapshotSink) (retError error) {
 		return err
 	}
 	if f.Finalizer != nil {
+		// The finalizer marks the on-disk database as matching the newest snapshot, so
+		// it must not run before that snapshot is actually installed in the Snapshot
+		// Store, which only happens when the sink is closed. If the sink can run it at
+		// that point, let it.
+		if ac, ok := sink.(interface{ SetAfterClose(func() error) }); ok {
+			ac.SetAfterClose(f.Finalizer)
+			return nil
+		}
 		return f.Finalizer()
 	}
 	return nil
